@@ -143,7 +143,7 @@ pub fn run(ctx: &mut Ctx) {
     }
     ctx.exhaustive.push(format!("every Unicode scalar value below U+{:X} as a one-character string (and after a 15-byte prefix for a third of them)", top));
     let mut rng = ctx.rng("oracle");
-    let n = if ctx.quick() { 200_000 } else { 3_000_000 };
+    let n = if ctx.quick() { 200_000 } else { 15_000_000 };
     for k in 0..n {
         let len = rng.range(0, 19) as usize;
         let s: String = (0..len).map(|_| { let cls = if k % 11 == 0 { rng.below(5) } else { 0 }; rand_char(&mut rng, cls) }).collect();
